@@ -18,6 +18,7 @@ From Coq Require Import List ZArith NArith.
 From Astisub Require Import Kit.Base Kit.Str Model.Files Model.Ops Model.Srt Model.Vtt Model.Conv Model.ConvOps Model.Plain Model.PlainOps Proofs.FilesProofs.
 From Astisub Require Import Proofs.SrtProofs Proofs.VttDoc Proofs.ConvProofs Proofs.ConvOpsProofs Proofs.PlainProofs Proofs.PlainOpsProofs.
 From Astisub Require Import Model.PlainSsa Proofs.PlainSsaProofs.
+From Astisub Require Import Model.Stl Model.PlainStl Proofs.PlainStlProofs.
 Import ListNotations.
 
 (* SubRip file -> WebVTT file: cues, order, times to the millisecond, text per line *)
@@ -114,6 +115,15 @@ Proof. exact ssa_plain_faithful. Qed.
 Print Assumptions C07_ssa_plain_faithful.
 Example C07_ssa_plain_example : ssa_plain_ok ex_plain /\ ssa_plain_ok (ptrunc 1000000 ex_plain).
 Proof. split; [exact ex_plain_ssa_ok | exact ex_plain_ssa_after_srt]. Qed.
+(* EBU STL written with the library's defaults (no metadata: teletext display standard "1", 25 frames per second, clock
+   fixed): unit = the 40 ms frame; stl_plain_ok = 1..65535 cues, times from 0 to below 100 h, at least one line per cue,
+   every line a non-empty text over the Latin repertoire without '$' and without white space at its ends, encoded text
+   within the 112 bytes of a TTI block; text equality is exact (one run per line: the writer inserts no space) *)
+Theorem C07_stl_plain_faithful : plain_faithful stl_plain_unit stl_plain_ok stl_enc stl_dec.
+Proof. exact stl_plain_faithful. Qed.
+Print Assumptions C07_stl_plain_faithful.
+Example C07_stl_plain_example : stl_plain_ok ex_plain_stl.
+Proof. exact ex_plain_stl_ok. Qed.
 Example C07_plain_example : srt_plain_ok ex_plain /\ vtt_plain_ok (ptrunc 1000000 ex_plain).
 Proof. split; [exact ex_plain_srt_ok | exact ex_plain_vtt_ok]. Qed.
 
